@@ -84,6 +84,20 @@ def scenario(args):
         if pressure:
             s.op(f"tcpbuf {rng.choice([8192, 16384, 32768])}")
             nmsg = rng.randint(6, 12)
+        burst = pressure and rng.random() < 0.5
+        if burst:
+            # many small frames sent back to back while the receiver's loop does not run: its reads (bounded by the tiny
+            # kernel buffer) end at arbitrary offsets inside frames and inside the 2-byte length headers
+            for _ in range(rng.randint(2, 4)):
+                cnt, sz, sd = rng.choice([60, 160, 300]), rng.choice([1, 13, 500, 1022, 1023, 1400, 4000]), rng.randrange(1000)
+                ev, st = s.op(f"sendburst A 1 1 {cnt} {sz} {sd}")
+                k = int(st.split()[2])
+                for i in range(k):
+                    sent_msgs.append(bytes((sd * 31 + i * 7 + j * 13) & 0xff for j in range(sz)))
+                for _ in range(3):
+                    s.op("settle 400")
+                    s.op("run 50")
+            nmsg = 0
         for i in range(nmsg):
             kind = rng.choice(["random", "random", "stunlike", "stun-nofp", "rtp"])
             if pressure:
